@@ -495,6 +495,36 @@ func cliServers(w *trace.Writer, bin, dir, auth string) int {
 						}
 					}
 				}
+				// uploads whose content is not the chunk named in the path: refused, nothing stored (the server was started with --skip-verify-write=false)
+				if kind == "chunk" && writable {
+					for bc, body := range map[string][]byte{"mismatch": func() []byte { b, _ := desync.Compress(data); return b }(), "garbage": []byte("not a compressed chunk"), "empty": {}} {
+						before := listDir(served)
+						req, _ := http.NewRequest("PUT", "http://"+addr+putPath, bytes.NewReader(body))
+						if via != "none" {
+							req.Header.Set("Authorization", auth)
+						}
+						resp, err := http.DefaultClient.Do(req)
+						if err != nil {
+							cmd.Process.Kill()
+							fmt.Fprintln(os.Stderr, "request failed:", err)
+							os.Exit(2)
+						}
+						io.ReadAll(resp.Body)
+						resp.Body.Close()
+						after := listDir(served)
+						changed := []string{}
+						for k, v := range after {
+							if before[k] != v {
+								changed = append(changed, k)
+								os.Remove(filepath.Join(served, k))
+							}
+						}
+						w.Emit(trace.M("ev", "row", "kind", kind, "authset", via != "none", "writable", writable, "verifywrite", true, "compressed", true,
+							"method", "PUT", "pathclass", "okmissing", "path", "cli:"+via+":"+putPath+":"+bc, "authclass", "right", "bodyclass", bc, "target", putPath[1:], "status", resp.StatusCode,
+							"called", []string{}, "changed", changed, "outside", false, "leaked", false, "dataok", false, "stored", false))
+						rows++
+					}
+				}
 				cmd.Process.Kill()
 				cmd.Wait()
 			}
